@@ -121,6 +121,8 @@ def check(ctx):
     res.floor("forwarded state/item arguments checked", n_fwd, 8)
 
     # ---- look-ahead and action per call site of the conflict detector
+    from ..roles import roles_of
+    R = roles_of(mir)
     n_sites = 0
     for fn in chain_fns:
         fex = Exprs(fn)
@@ -137,7 +139,7 @@ def check(ctx):
             key = "site|%s" % fn.path.rsplit("::", 1)[-1]
             res.inst(LA, key, c.where, True, "look-ahead %s ; action %s" % (q, a))
             if a.startswith("Action::Reduce{"):
-                if q != "Lookahead::as_quasiterminal(%s.lookahead)" % item:
+                if q != "%s(%s.lookahead)" % (R.nm("lookahead_as_quasiterminal"), item):
                     res.violate(LA, key + "|reduce-lookahead", c.where, "a reduce action must be entered under the item's own look-ahead (`as_quasiterminal(%s.lookahead)`), found `%s`" % (item, q))
                 # the rule: a parameter that the caller filled from item.rule_index
                 m = re.match(r"^Action::Reduce\{(param\d+)\}$", a)
@@ -151,7 +153,7 @@ def check(ctx):
                 if not m:
                     res.violate(LA, key + "|shift-lookahead", c.where, "a shift action must be entered under the terminal at the item's dot, found `%s`" % q)
                 else:
-                    want_a = "Action::Shift{Option::unwrap(Machine::get_shift_dest(param1.%s, %s, %s))}" % (ctx_fields.get("machine", ("?", "machine"))[1], state, tparam)
+                    want_a = "Action::Shift{Option::unwrap(%s(param1.%s, %s, %s))}" % (R.nm("machine_shift_dest"), ctx_fields.get("machine", ("?", "machine"))[1], state, tparam)
                     if a != want_a:
                         res.violate(LA, key + "|shift-dest", c.where, "the shift destination must be the transition from this very state on this very terminal (`%s`), found `%s`" % (want_a, a))
                     check_terminal_origin(mir, st, fn, int(tparam[5:]), res, LA)
@@ -179,8 +181,8 @@ def check(ctx):
         if ok:
             fa = args[fi[0]]
             ma = args[mi[0]]
-            okf = bool(re.match(r"^\(Try@Result::branch\(validate_ast::validate_ast\(.*\)\) as Continue\)\.0$", fa))
-            okm = bool(re.match(r"^validated_ast_to_machine::validated_ast_to_machine\(%s\)$" % re.escape(fa), ma))
+            okf = bool(re.match(r"^\(Try@Result::branch\(%s\(.*\)\) as Continue\)\.0$" % R.sp("stage_validate"), fa))
+            okm = bool(re.match(r"^%s\(%s\)$" % (R.sp("stage_machine"), re.escape(fa)), ma))
             if not okf:
                 res.violate(CTX, "file-arg", c.where, "the grammar handed to table filling must be the value returned by validation, found `%s`" % fa)
             if not okm:
@@ -191,7 +193,7 @@ def check(ctx):
         for fn in chain_fns + [mir.fns[k] for k in mir.callgraph().get(c.rkey, ())]:
             for b in fn.blocks:
                 for s_ in b["stmts"]:
-                    if s_["k"] == "assign" and s_["rv"]["k"] == "agg" and s_["rv"].get("adt", "").endswith("ImmutContext") and s_["rv"].get("adt") == (ctx_owner(mir, st) or s_["rv"].get("adt")):
+                    if s_["k"] == "assign" and s_["rv"]["k"] == "agg" and s_["rv"].get("adt") == ctx_owner(mir, st):
                         fex = Exprs(fn)
                         vals = dict(zip(s_["rv"]["fields"], [canon(fex.operand(o)) for o in s_["rv"]["ops"]]))
                         fm = [i + 1 for i, t in enumerate(fn.inputs) if t["head"].endswith("::Machine")]
@@ -222,7 +224,17 @@ def check(ctx):
 
 
 def ctx_owner(mir, st):
-    return None
+    """the table-filling context type, by role: the one struct with a field holding the automaton and a field holding
+    the validated file (both by reference)"""
+    out = []
+    for path, adt in mir.adts.items():
+        vs = adt.get("variants", [])
+        if len(vs) != 1:
+            continue
+        tys = [f["ty"].get("s", "") for f in vs[0]["fields"]]
+        if any("machine::Machine" in t and t.startswith("&") for t in tys) and any("validated_file::File" in t and t.startswith("&") for t in tys):
+            out.append(path)
+    return out[0] if len(out) == 1 else None
 
 
 def check_rule_index_origin(mir, st, fn, pidx, res, rule):
@@ -254,7 +266,8 @@ def check_terminal_origin(mir, st, fn, pidx, res, rule):
                 ip = param_of_type(caller, "::StateItem")
                 item = "param%d" % ip[0] if ip else "?"
                 key = "terminal-origin|%s->%s" % (caller.path.rsplit("::", 1)[-1], fn.path.rsplit("::", 1)[-1])
-                m = re.match(r"^\(Fieldset::get_symbol_ident\(Index@Vec::index\(param1\.rules, (param\d+)\)\.fieldset, %s\.dot\) as Terminal\)\.0\.name$" % re.escape(item), got)
+                from ..roles import roles_of
+                m = re.match(r"^\(%s\(Index@Vec::index\(param1\.rules, (param\d+)\)\.fieldset, %s\.dot\) as Terminal\)\.0\.name$" % (roles_of(mir).sp("symbol_accessor"), re.escape(item)), got)
                 res.inst(rule, key, c.where, True, got)
                 if not m:
                     res.violate(rule, key, c.where, "the shifted terminal must be the symbol at the item's own dot in its own rule, found `%s`" % got)
